@@ -4,7 +4,7 @@
 From Coq Require Import Reals.
 From PV Require Import Lib.Common Model.C12_Var Model.C12_Enum Proofs.C12_Sums Proofs.C12_Chunks Proofs.C12_Var Proofs.C12_Selfing
   Proofs.C12_Meiosis Proofs.C12_Exact Proofs.C12_Genic Proofs.C12_Findings Proofs.C12_Lift Proofs.C12_Multi Proofs.C12_Top
-  Model.C12_KernelBase Gen.C12_Kernel Proofs.C12_Kernel.
+  Model.C12_KernelBase Gen.C12_Kernel Proofs.C12_Kernel Proofs.C12_Scale.
 Local Open Scope Q_scope.
 
 (** ** memory chunking *)
@@ -470,6 +470,39 @@ Print Assumptions C12_kernel_uc_def.
 Example C12_kernel_hyps_satisfiable : mem_ok (s_mem wS) /\ gen_tables k_three_D1 k_three_D2 wS wR 0 /\ gen_tables k_two_D1 k_cov_D2s wS wR 0 /\
   ~ gen_three_entry 2 wS [[0%Z]; [1%Z]] 0 0 0 1 1 == 0.
 Proof. exact kernel_hyps_example. Qed.
+
+(** ** scale covariance and sessions (the laws behind the phase-2 generators) *)
+(** multiplying every marker effect by c multiplies every entry of every genetic (co)variance matrix by c*c *)
+Theorem C12_scale_covariant : forall c S geno geno1 t1 t2,
+  (forall f m, twoway_entry (scale_setup c S) geno t1 t2 f m == c * c * twoway_entry S geno t1 t2 f m) /\
+  (forall r f m, threeway_entry (scale_setup c S) geno t1 t2 r f m == c * c * threeway_entry S geno t1 t2 r f m) /\
+  (forall f2 m2 f1 m1, fourway_entry (scale_setup c S) geno t1 t2 f2 m2 f1 m1 == c * c * fourway_entry S geno t1 t2 f2 m2 f1 m1) /\
+  (forall f m, dihybrid_entry (scale_setup c S) geno geno1 t1 t2 f m == c * c * dihybrid_entry S geno geno1 t1 t2 f m).
+Proof. exact entries_scale. Qed.
+Print Assumptions C12_scale_covariant.
+
+Theorem C12_genic_scale_covariant : forall c u p tr pf, genic_freq (scale_u c u) p tr pf == c * c * genic_freq u p tr pf.
+Proof. exact genic_scale. Qed.
+Print Assumptions C12_genic_scale_covariant.
+
+Theorem C12_uc_scale_covariant : forall c si mean var x, 0 <= c -> 0 <= x - mean -> (x - mean) * (x - mean) == si * si * var ->
+  0 <= c * x - c * mean /\ (c * x - c * mean) * (c * x - c * mean) == si * si * (c * c * var).
+Proof. exact uc_scale. Qed.
+Print Assumptions C12_uc_scale_covariant.
+Example C12_uc_scale_hyps_satisfiable : 0 <= 2 /\ 0 <= 5 - 3 /\ (5 - 3) * (5 - 3) == 1 * 1 * 4.
+Proof. repeat split; vm_compute; discriminate. Qed.
+
+(** in any history of in-place updates and calls on the same objects, the result of a call is the function of the state at that call,
+    and that state is determined by the updates alone (earlier calls leave no trace): what the session cases observe of the library *)
+Theorem C12_session_call : forall (St Res : Type) (f : St -> Res) (s : St) (ops : list (op (St := St))),
+  run f s (ops ++ [Call]) = run f s ops ++ [f (final_state s ops)].
+Proof. exact @session_call. Qed.
+Print Assumptions C12_session_call.
+
+Theorem C12_session_calls_leave_no_trace : forall (St : Type) (s : St) (ops : list (op (St := St))),
+  final_state s ops = final_state s (filter is_upd ops).
+Proof. exact @session_calls_leave_no_trace. Qed.
+Print Assumptions C12_session_calls_leave_no_trace.
 
 (** non-vacuity: a 4-locus, 2-linkage-group, 2-trait setup meets every hypothesis of the exactness theorem and has a non-zero covariance *)
 Example C12_hyps_satisfiable : mem_ok (s_mem ex_S) /\ consecutive (s_chroms ex_S) 0 (S (length ex_ps)) /\ free_between ex_ps 0 (s_chroms ex_S) /\
